@@ -13,6 +13,9 @@ pub enum Outcome {
     HeaderError,
     /// nothing happens (an interrupt line that fires is then spurious)
     Nothing,
+    /// a false preamble detection, then the single-shot reception times out: the host finds both flags
+    /// latched at once (continuous / duty-cycled reception: the detection alone)
+    PreambleThenTimeout,
 }
 
 #[derive(Clone, Copy, Debug, PartialEq, Eq, Hash)]
@@ -180,6 +183,13 @@ impl Sx126xChip {
                         self.mode = Mode::Standby;
                     }
                 }
+                Outcome::PreambleThenTimeout => {
+                    self.irq |= 0x0004;
+                    if !continuous && op != 0x94 {
+                        self.irq |= 0x0200;
+                        self.mode = Mode::Standby;
+                    }
+                }
                 Outcome::Nothing => {}
             },
             0xC5 => match self.outcome {
@@ -187,7 +197,7 @@ impl Sx126xChip {
                     self.irq |= 0x0080 | 0x0100;
                     self.mode = Mode::Standby;
                 }
-                Outcome::Timeout | Outcome::CrcError | Outcome::HeaderError => {
+                Outcome::Timeout | Outcome::CrcError | Outcome::HeaderError | Outcome::PreambleThenTimeout => {
                     self.irq |= 0x0080;
                     self.mode = Mode::Standby;
                 }
@@ -539,7 +549,7 @@ impl Sx127xChip {
                             self.set_mode(1);
                         }
                     }
-                    Outcome::Timeout | Outcome::HeaderError => {
+                    Outcome::Timeout | Outcome::HeaderError | Outcome::PreambleThenTimeout => {
                         if single {
                             self.raise(0x80);
                             self.set_mode(1);
